@@ -114,6 +114,57 @@ def _global_reads(text):
     return out
 
 
+def _dead_top_imports(text):
+    """top-level import aliases (line, bound name) that nothing can read once they have executed: no load/del of the name in
+    any later top-level statement (at any depth), none in any def / lambda / generator-expression body anywhere in the
+    module (those may run later), the name is not exported through a literal __all__, not mentioned in a doctest line or
+    in an identifier-like string, and no scope declares it `global`.  Flow-aware only along the top-level statement
+    order, which is exact for statements that are direct children of the module."""
+    src = text if text.endswith("\n") else text + "\n"
+    tree = ast.parse(src)
+    deferred, soft = set(), set()
+    for n in ast.walk(tree):
+        if isinstance(n, (ast.FunctionDef, ast.AsyncFunctionDef, ast.Lambda, ast.GeneratorExp)):
+            if isinstance(n, ast.GeneratorExp):
+                parts = [n]
+            else:
+                parts = n.body if isinstance(n.body, list) else [n.body]
+            for b in parts:
+                deferred.update(x.id for x in ast.walk(b) if isinstance(x, ast.Name) and isinstance(x.ctx, (ast.Load, ast.Del)))
+        if isinstance(n, (ast.Global, ast.Nonlocal)):
+            soft.update(n.names)
+        if isinstance(n, ast.Assign) and any(isinstance(t, ast.Name) and t.id == "__all__" for t in n.targets):
+            try:
+                soft.update(ast.literal_eval(n.value))
+            except Exception:
+                pass
+        if isinstance(n, ast.AugAssign) and isinstance(n.target, ast.Name) and n.target.id == "__all__":
+            try:
+                soft.update(ast.literal_eval(n.value))
+            except Exception:
+                pass
+        if isinstance(n, ast.Constant) and isinstance(n.value, str):
+            soft.update(re.findall(r"[A-Za-z_][A-Za-z_0-9]*", n.value))
+    soft.update(re.findall(r"[A-Za-z_][A-Za-z_0-9]*", " ".join(l.split("#", 1)[1] for l in src.splitlines() if "#" in l)))
+    dead = []
+    for idx, st in enumerate(tree.body):
+        if not isinstance(st, (ast.Import, ast.ImportFrom)):
+            continue
+        if isinstance(st, ast.ImportFrom) and st.module == "__future__":
+            continue
+        later = set()
+        for s2 in tree.body[idx + 1:]:
+            later.update(x.id for x in ast.walk(s2) if isinstance(x, ast.Name) and isinstance(x.ctx, (ast.Load, ast.Del)))
+        for a in st.names:
+            if a.name == "*":
+                continue
+            bound = a.asname or a.name.split(".")[0]
+            if bound in later or bound in deferred or bound in soft:
+                continue
+            dead.append((st.lineno, bound, a.name, a.asname, getattr(st, "module", None), getattr(st, "level", 0)))
+    return dead
+
+
 class C04(Prop):
     id = "C04"
     driver = "Blocks"
@@ -341,6 +392,19 @@ class C04(Prop):
             bound = asname or name.split(".")[0]
             if bound not in loaded:
                 fails.append(dict(what="a top-level import whose binding is never read remains", imp=list(i), **ctx))
+        # 3b. the same clause along the order of the top-level statements: an import that nothing can read once it has
+        #     executed (e.g. a late copy of an import that was also added in front of the first use) remains
+        if not has_star and not fails:
+            try:
+                dead = _dead_top_imports(out)
+            except SyntaxError:
+                dead = []
+            for line, bound, name, asname, mod, lvl in dead:
+                i = (mod, lvl or 0, name, asname) if mod is not None or lvl else (None, 0, name, asname)
+                if i in mand_set or (mod, lvl, name, asname) in mand_set:
+                    continue
+                fails.append(dict(what="a top-level import that nothing reads after it executes remains",
+                                  imp=[mod, lvl, name, asname], line=line, **ctx))
         return fails[:3]
 
     def model_requests(self, case, obs):
